@@ -11,6 +11,7 @@ import (
 	"path/filepath"
 	"reflect"
 	"strings"
+	"sync"
 	"testing"
 
 	"github.com/compose-spec/compose-go/v2/loader"
@@ -205,8 +206,97 @@ func genC02(t *rapid.T) c02Case {
 		{Name: "compose-0.yaml", Content: "version: \"2\"\nservices:\n  broken:\n    image: x\n    ports: [\"not-a-port\"]\n"},
 		{Name: "compose-0.yaml", Content: "services:\n  " + names[0] + ":\n    image: other-image-under-the-same-name\n"},
 	}
+	// a load that merges documents: short spellings in the first one, refined by long ones in the second
+	cond := rapid.SampledFrom([]string{"service_healthy", "service_completed_successfully", "service_started"}).Draw(t, "stir-condition")
+	mode := rapid.SampledFrom([]string{"host", "ingress"}).Draw(t, "stir-mode")
+	cs.Others = append(cs.Others, memFile{Name: "compose-0.yaml", Content: fmt.Sprintf(c02Stirrer, cond, rapid.Bool().Draw(t, "stir-restart"), rapid.Bool().Draw(t, "stir-required"), mode, rapid.Bool().Draw(t, "stir-ro"))})
 	cs.Repeats = 3
 	return cs
+}
+
+const c02Stirrer = `services:
+  s1:
+    image: x
+    depends_on: [s2]
+    ports: ["80"]
+    volumes: ["v:/v"]
+    secrets: [sec]
+    configs: [cfg]
+    networks: [n]
+    env_file: [a.env]
+    build: .
+  s2: {image: y}
+networks: {n: {}}
+volumes: {v: {}}
+secrets: {sec: {environment: SECRET_token}}
+configs: {cfg: {content: c}}
+---
+services:
+  s1:
+    depends_on: {s2: {condition: %s, restart: %v, required: %v}}
+    ports: [{target: 80, published: "8080", mode: %s, name: web}]
+    volumes: [{type: volume, source: v, target: /v, read_only: %v, volume: {nocopy: true}}]
+    secrets: [{source: sec, target: /run/secrets/sec, mode: 0400, uid: "7"}]
+    configs: [{source: cfg, target: /cfg, mode: 0444, gid: "8"}]
+    networks: {n: {aliases: [al], priority: 5}}
+    env_file: [{path: a.env, required: false, format: raw}]
+    build: {context: ., dockerfile: Other, args: {A: b}}
+`
+
+// c02Canaries are loaded when the process starts checking and again after every case: what a project loads
+// to does not depend on the loads that happened before it in the process. Short spellings all over, since
+// what they stand for is what a shared default would hold.
+var c02Canaries = []string{`name: canary
+services:
+  a:
+    image: x
+    depends_on: [b, c]
+    ports: ["8080:80", "53/udp", "127.0.0.1:9000-9001:9000-9001"]
+    expose: [3000]
+    volumes: ["vol:/data", "./src:/src:ro", "/tmp/x:/x:rw,z"]
+    environment: [K=v, E]
+    secrets: [sec]
+    configs: [cfg]
+    networks: [n]
+    build: ./ctx
+    extra_hosts: ["h:1.2.3.4"]
+    tmpfs: /run
+    dns: 1.1.1.1
+    ulimits: {nofile: 10, nproc: {soft: 1, hard: 2}}
+    healthcheck: {test: "true", interval: 1s}
+    deploy: {resources: {limits: {cpus: "0.5", memory: 10M}}}
+    develop: {watch: [{path: ./src, action: sync, target: /src}]}
+  b: {image: y, depends_on: {c: {condition: service_healthy}}}
+  c: {image: z, network_mode: none}
+networks: {n: {ipam: {config: [{subnet: 10.0.0.0/24}]}}}
+volumes: {vol: {}}
+secrets: {sec: {environment: SECRET_token}}
+configs: {cfg: {content: c}}
+`, fatBaseYAML}
+
+var (
+	c02CanaryOnce sync.Once
+	c02CanaryBase []string
+)
+
+func c02LoadCanaries() []string {
+	out := make([]string, len(c02Canaries))
+	for i, doc := range c02Canaries {
+		lc := loadCase{Files: []memFile{{Name: "compose.yaml", Content: doc}}, Main: []string{"compose.yaml"}, Env: map[string]string{"SECRET_token": "t", "SECRET_cert": "c", "SECRET_apikey": "k"}}
+		lc.Opts.DiscardEnvFiles = true
+		r := lc.loadMem()
+		switch {
+		case r.Panic != nil:
+			out[i] = "panic: " + r.Panic.Msg
+		case r.Err != nil:
+			out[i] = "error: " + r.Err.Error()
+		default:
+			y, _ := r.Project.MarshalYAML()
+			j, _ := r.Project.MarshalJSON()
+			out[i] = string(y) + "\n=== json\n" + string(j)
+		}
+	}
+	return out
 }
 
 type c02Outcome struct {
@@ -262,6 +352,7 @@ func c02Check(c *Ctx, cs c02Case) *Failure {
 		return failf("panic@harness:materialise", "%v", err)
 	}
 	defer cleanup()
+	c02CanaryOnce.Do(func() { c02CanaryBase = c02LoadCanaries() })
 	first, f := c02LoadAt(root, cs)
 	if f != nil {
 		return f
@@ -405,6 +496,15 @@ func c02Check(c *Ctx, cs c02Case) *Failure {
 	perm, f := c02LoadAt(root, cs)
 	if f != nil {
 		return f
+	}
+	// (d) history again, against a fixed point: the canary projects load as they did when the process started
+	for i, now := range c02LoadCanaries() {
+		if strings.HasPrefix(c02CanaryBase[i], "error: ") || strings.HasPrefix(c02CanaryBase[i], "panic: ") {
+			return failf("panic@harness:canary", "canary %d does not load: %s", i, c02CanaryBase[i])
+		}
+		if now != c02CanaryBase[i] {
+			return failf("c02:canary-differs-after-history", "the fixed project %d loads differently than it did at the start of the process (after the loads of this and earlier cases):\n%s\n%s", i, firstDiffLines(c02CanaryBase[i], now), desc())
+		}
 	}
 	if f := compare("permuted-keys", first, perm); f != nil {
 		var b strings.Builder
